@@ -147,3 +147,34 @@ Example C08_long_chain_is_evaluated :
   select_t (VNum (NUInt 5)) [PRoot; PFilter e] MAll [] = Ok (enc (VNum (NUInt 5)), [10]).
 Proof. exact long_chain_is_evaluated. Qed.
 Print Assumptions C08_long_chain_is_evaluated.
+
+(* ---- the never-panics chain, closed (PathClosed.v): C09_parser_image gives every accepted text an AST of the parser's shape;
+   every AST of that shape satisfies `path_ok` (the hypothesis of C08_evaluation_never_panics / C08_bytes_never_panics);
+   so the evaluation of ANY accepted path on ANY well-formed document never panics: tree evaluator, byte selector, and the
+   public functions on a JSONB or JSON-text argument (`stands_for t v`: t = enc v, or a JSON text that reads as v) ---- *)
+From JB Require Import PathParse PathImage PathClosed.
+From JB Require TextBinProofs.
+Theorem C08_accepted_paths_satisfy_the_never_panics_hypotheses :
+  (forall ps, shape_path ps -> path_ok false ps) /\ (forall bs ps, parse_json_path bs = Ok ps -> path_ok false ps).
+Proof. exact (conj shape_path_ok parse_path_ok). Qed.
+Print Assumptions C08_accepted_paths_satisfy_the_never_panics_hypotheses.
+
+Theorem C08_evaluation_of_any_accepted_path_never_panics : forall bs ps, parse_json_path bs = Ok ps ->
+  (forall root, find_positions root None ps <> Panic) /\
+  (forall root m buf, select_t root ps m buf <> Panic) /\
+  (forall root, exists_t root ps <> Panic) /\
+  (forall root, predicate_match_t root ps <> Panic) /\
+  (forall v m buf, wfb v = true -> select_w (enc v) ps m buf <> Panic) /\
+  (forall v, wfb v = true -> sel_exists_w (enc v) ps <> Panic) /\
+  (forall v, wfb v = true -> sel_predicate_match_w (enc v) ps <> Panic) /\
+  (forall md t v buf, wfb v = true -> TextBinProofs.stands_for t v -> get_by_path_gen_w md t ps buf <> Panic) /\
+  (forall t v, wfb v = true -> TextBinProofs.stands_for t v -> path_exists_w t ps <> Panic) /\
+  (forall t v, wfb v = true -> TextBinProofs.stands_for t v -> path_match_w t ps <> Panic).
+Proof.
+  intros bs ps H.
+  exact (conj (accepted_find_positions_np bs ps H) (conj (accepted_select_t_np bs ps H) (conj (accepted_exists_t_np bs ps H)
+        (conj (accepted_predicate_match_t_np bs ps H) (conj (accepted_select_w_np bs ps H) (conj (accepted_sel_exists_w_np bs ps H)
+        (conj (accepted_sel_predicate_match_w_np bs ps H) (conj (accepted_get_by_path_np bs ps H) (conj (accepted_path_exists_np bs ps H)
+        (accepted_path_match_np bs ps H)))))))))).
+Qed.
+Print Assumptions C08_evaluation_of_any_accepted_path_never_panics.
